@@ -491,6 +491,66 @@ theorem generated_cuts_in_given_order :
     (∀ row ∈ Generated.cutProbesR2, (row.2.2.1, row.2.2.2.1, row.2.2.2.2) = cutsSequentially row.1 ([], [], row.2.1)) := by
   decide
 
+theorem pySlice_from_pos (xs : List α) (n : Int) (h : 0 < n) : pySlice xs (some n) none = xs.drop n.toNat := by
+  unfold pySlice normBound seg
+  have : ¬ n < 0 := by omega
+  simp only [this, if_false]
+  by_cases hl : n.toNat ≤ xs.length
+  · simp [Nat.min_eq_left hl]
+  · have hl' : xs.length ≤ n.toNat := by omega
+    simp [Nat.min_eq_right hl', List.drop_eq_nil_of_le hl']
+
+theorem pySlice_to_pos (xs : List α) (n : Int) (h : 0 < n) : pySlice xs none (some n) = xs.take n.toNat := by
+  unfold pySlice normBound seg
+  have : ¬ n < 0 := by omega
+  simp only [this, if_false]
+  by_cases hl : n.toNat ≤ xs.length
+  · simp [Nat.min_eq_left hl]
+  · have hl' : xs.length ≤ n.toNat := by omega
+    simp [Nat.min_eq_right hl', List.take_of_length_le hl']
+
+theorem pySlice_to_neg (xs : List α) (n : Int) (h : n < 0) : pySlice xs none (some n) = xs.take (xs.length - n.natAbs) := by
+  unfold pySlice normBound seg
+  simp only [h, if_true, List.drop_zero]
+  congr 1
+  omega
+
+theorem pySlice_from_neg (xs : List α) (n : Int) (h : n < 0) : pySlice xs (some n) none = xs.drop (xs.length - n.natAbs) := by
+  unfold pySlice normBound seg
+  simp only [h, if_true, List.take_length]
+  congr 1
+  omega
+
+/-- **What the documentation says about a list of `-u` values holds of the model for every list and every read**: the cut modifiers that the
+    assembly builds from the values, run one after the other, leave exactly `cutsSequentially` — the remaining sequence, and the last removed 5'
+    and 3' pieces as `{cut_prefix}` / `{cut_suffix}` (zero values do nothing). `generated_cuts_in_given_order` shows the same function on the
+    program's probe runs. -/
+theorem model_cuts_are_sequential (names : Names) (cs : List Int) (read : Read) (info : Info) (evs : List Event) :
+    ∃ r' i', runModsS names ((cs.filter (· != 0)).map SMod.cut) read info evs = .ok (r', i', evs) ∧
+      (i'.cutPrefix.getD [], i'.cutSuffix.getD [], r'.seq) =
+        cutsSequentially cs (info.cutPrefix.getD [], info.cutSuffix.getD [], read.seq) := by
+  induction cs generalizing read info with
+  | nil => exact ⟨read, info, rfl, rfl⟩
+  | cons c cs ih =>
+    by_cases hc : c = 0
+    · subst hc
+      simpa [cutsSequentially] using ih read info
+    · have hf : ((c :: cs).filter (· != 0)) = c :: cs.filter (· != 0) := by simp [hc]
+      rw [hf]
+      simp only [List.map_cons, runModsS, applyS]
+      by_cases hp : c > 0
+      · simp only [hp, if_true, List.append_nil]
+        obtain ⟨r', i', h1, h2⟩ := ih (read.slice (some c) none) { info with cutPrefix := some (pySlice read.seq none (some c)) }
+        refine ⟨r', i', h1, ?_⟩
+        rw [h2]
+        simp [cutsSequentially, hp, Read.slice, pySlice_from_pos _ _ hp, pySlice_to_pos _ _ hp]
+      · have hn : c < 0 := by omega
+        simp only [hp, hn, if_false, if_true, List.append_nil]
+        obtain ⟨r', i', h1, h2⟩ := ih (read.slice none (some c)) { info with cutSuffix := some (pySlice read.seq (some c) none) }
+        refine ⟨r', i', h1, ?_⟩
+        rw [h2]
+        simp [cutsSequentially, hp, hn, Read.slice, pySlice_to_neg _ _ hn, pySlice_from_neg _ _ hn]
+
 /-- what the model does with the same values on the same probe read: assembly (`makeModsSingle`), then the modifiers in list order -/
 def modelCuts (cuts : List Int) (s : Bytes) : Option (Bytes × Bytes × Bytes) :=
   match makeModsSingle { cut := cuts } [] with
